@@ -147,6 +147,8 @@ package asset
 //@ func Sync.Run
 //@ modifies s, target
 //@ requires source != target && len(s.Assets) >= 1
+// the delay between assets is turned into a time.Duration (int64 nanoseconds): it must fit (about 292 years of seconds)
+//@ requires 0 <= s.Delay && s.Delay <= 9223372036
 //@ requires forall a, b :: 0 <= a && a < b && b < len(s.Assets) ==> s.Assets[a] != s.Assets[b]
 //@ ensures[C12] "no-error-means-every-asset-synced" result == nil ==> (forall j :: 0 <= j && j < len(s.Assets) ==> synced(source, target, s.Assets[j], defaultStartDate))
 //@ loop#1 use cntsince_lt(view(source)[name], lastDate, _, len(view(source)[name]))
